@@ -160,6 +160,22 @@ def case_C20(seed):
         viol.append(('C20:planar-' + bad[0], f"interpolate_path({pts}, {dd}): {bad[1]}", {'path': pts, 'dd': dd}))
     if len(out) > len(pts):
         nontriv = True
+    if not viol and seed % 3 == 0:
+        # the same trace as the caller may hold it: a float array of shape (n, 2), a list of float arrays, lists instead of
+        # tuples.  Checked against the copy taken BEFORE the call (a routine that moves the caller's points moves the originals)
+        import numpy as np
+        form = ['ndarray', 'list-of-arrays', 'list-of-lists'][(seed // 3) % 3]
+        arg = np.array(pts, dtype=float) if form == 'ndarray' else ([np.array(q, dtype=float) for q in pts] if form == 'list-of-arrays' else [list(q) for q in pts])
+        try:
+            out2 = [tuple(float(c) for c in q[:2]) for q in de.interpolate_path(arg, dd)]
+            bad2 = check_interp(pts, out2, dd, lambda a, b: math.hypot(a[0] - b[0], a[1] - b[1]), lambda q, a, b: planar_off_segment(q, a, b), 1e-9)
+            after = [tuple(float(c) for c in q[:2]) for q in arg]
+            if not bad2 and after != [tuple(q) for q in pts]:
+                bad2 = ('callers-trace-was-modified', f"the trace handed in is now {after[:3]}...")
+        except Exception as e:
+            bad2 = ('raised', repr(e))
+        if bad2:
+            viol.append((f'C20:planar-{bad2[0]}(trace given as {form})', f"interpolate_path(<{form}> {pts}, {dd}): {bad2[1]}", {'path': pts, 'dd': dd, 'form': form}))
     # ---------------- lat-lon
     lat0, lon0 = rnd.choice(ANCHORS)
     p0 = (lat0 + rnd.uniform(-0.05, 0.05), lon0 + rnd.uniform(-0.05, 0.05))
